@@ -551,8 +551,64 @@ pub fn gen_structured(rng: &mut Rng, o: &ProgOpts) -> Built {
 pub fn directed_raw_image(k: u64) -> Vec<u16> {
     const SPECIAL: [u16; 8] = [0xFE00, 0xFE02, 0xFE04, 0xFE06, 0xFFFC, 0xFFFE, 0xFDFF, 0xFFFF];
     let k = k as usize;
-    let orig = [0x3000u16, 0x0200, 0x8000, 0xFD00][k % 4];
-    let body: Vec<u16> = match (k / 4) % 12 {
+    let mut orig = [0x3000u16, 0x0200, 0x8000, 0xFD00][k % 4];
+    if (12..=14).contains(&((k / 4) % 16)) && orig == 0xFD00 {
+        orig = 0x4000; // (the long images do not fit above xFD00)
+    }
+    let orig = orig;
+    let body: Vec<u16> = match (k / 4) % 16 {
+        // both ends of every PC-relative and base+offset field, in images long enough to hold the target
+        12 => {
+            // JSR +1023 to a JSR -1024 which calls the routine right behind the first word
+            let mut b = vec![0u16; 1026];
+            b[0] = 0x4BFF;
+            b[1] = 0x1021; // ADD R0,R0,#1
+            b[2] = 0xC1C0; // RET
+            b[1024] = 0x4C00;
+            b[1025] = 0xF025;
+            b
+        }
+        13 => {
+            // BRnzp +255 to a BRnzp -256, back to word 1, on with BRnzp +254
+            let mut b = vec![0u16; 258];
+            b[0] = 0x0EFF;
+            b[1] = 0x1021;
+            b[2] = 0x0EFE;
+            b[256] = 0x0F00;
+            b[257] = 0xF025;
+            b
+        }
+        14 => {
+            // LD +255, then ST / LD / LEA / LDI / STI with offset -256
+            let mut b = vec![0u16; 264];
+            b[0] = 0x20FF; // LD R0,#255 -> word 256
+            b[1] = 0x0EFF; // BRnzp +255 -> word 257
+            b[3] = 0x4321;
+            b[5] = orig.wrapping_add(256); // pointer for LDI
+            b[6] = orig.wrapping_add(7); // pointer for STI
+            b[256] = 0x1234;
+            b[257] = 0x3100; // ST R0,#-256 -> word 2
+            b[258] = 0x2500; // LD R2,#-256 -> word 3
+            b[259] = 0xE700; // LEA R3,#-256 -> word 4
+            b[260] = 0xA900; // LDI R4,#-256 -> through word 5
+            b[261] = 0xB100; // STI R0,#-256 -> through word 6
+            b[262] = 0xF025;
+            b
+        }
+        15 => {
+            // LDR / STR with offsets -32 and +31 around a base in the middle of the image
+            let mut b = vec![0u16; 80];
+            b[0] = 0xE427; // LEA R2,#39 -> word 40
+            b[1] = 0x62A0; // LDR R1,R2,#-32 -> word 8
+            b[2] = 0x669F; // LDR R3,R2,#31 -> word 71
+            b[3] = 0x72BF; // STR R1,R2,#-1 -> word 39
+            b[4] = 0x769F | 0x0000; // STR R3,R2,#31 -> word 71
+            b[5] = 0x76A0; // STR R3,R2,#-32 -> word 8
+            b[6] = 0xF025;
+            b[8] = 0x1111;
+            b[71] = 0x7777;
+            b
+        }
         0 => vec![0x5020, 0x0FFF, 0xF025],                         // AND R0,R0,#0 ; BRnzp self
         1 => vec![0xE200, 0xC040, 0xF025],                         // LEA R1,#0 ; JMP R1 (to itself)
         2 => vec![0x4FFF, 0xF025],                                 // JSR self
